@@ -2,7 +2,7 @@
 From Coq Require Extraction.
 From Coq Require Import ExtrOcamlBasic.
 From Coq Require Import ZArith QArith List.
-From RLV Require Import Model.Logger Model.Buffers Model.BufferRun Model.Persist Model.Num Model.PrioNum Model.Checkpointing Model.Tabular Model.Tensor Model.Blocks Model.Returns Model.Dual Model.Losses Model.Heads Model.Greedy Model.BlackBox Model.Ensemble.
+From RLV Require Import Model.Logger Model.Buffers Model.BufferRun Model.Persist Model.Num Model.PrioNum Model.Checkpointing Model.Tabular Model.Tensor Model.Blocks Model.Returns Model.Dual Model.Losses Model.Actor Model.Heads Model.Greedy Model.BlackBox Model.Ensemble.
 Extraction Language OCaml.
 Extraction "../build/ocaml/model.ml"
   (* base *) Nat.add Qred Qplus Qmult Qminus Qdiv Qopp Qle_bool Qeq_bool
@@ -14,6 +14,7 @@ Extraction "../build/ocaml/model.ml"
   (* Blocks *) two_hot_encoding two_hot_decoding two_hot_ce_row huber masked_mse_loss avg_l1_norm linear_schedule_k transition_steps make_two_hot_bins log_softmax
   (* Returns *) reward_to_go compute_gae n_step_return a2c_batch ppo_gae ppo_flat_gae zip4
   (* Losses *) dual_ops dual_sg ddpg_loss td3_loss sac_loss td3_lap_loss td7_target td7_critic_loss mrq_loss dqn_loss ddqn_loss ddqn_per_loss sale_loss
+  (* Actor *) pg_pseudo_loss reinforce_weights ac_weights a2c_normalise ppo_policy_loss ppo_value_loss ppo_loss dpg_loss sac_actor_loss sac_exploration_loss
   (* Heads *) softmax cat_logprob cat_entropy gauss_std gauss_logpdf gauss_entropy gauss_sample tanh_scaled half_range mid_range eps_greedy dqn_choice greedy_net
   (* BlackBox *) cma_config cma_weights cma_init next_parameters set_feedback cma_update cma_hsig_lhs argsort top_k xsum eye diag cem_sample cem_update cem_elites flat_params set_params
   (* Ensemble *) pe_epoch_batches pe_epoch_positions pe_gmlp_forward pe_relu pe_swish pe_safe_log_var pe_min_log_var pe_max_log_var pe_call2 pe_call3 pe_base_predict pe_base_distribution pe_aggregate pe_gaussian_nll pe_ensemble_loss pe_evaluate_plans pe_norm_angle pe_pendulum_reward pe_gym_pendulum_reward nsum
